@@ -398,6 +398,14 @@ func runC12(c *Ctx) {
 			}
 			unconditional := func(in ssa.Instruction) bool {
 				for _, f := range w.factsAt(in) {
+					// `if interval < cap { double; clamp }`: an interval already at or above the
+					// cap is left alone, one below it is doubled and then clamped (the clamp is
+					// demanded separately) — nothing overshoots
+					if f.Op == "<" && f.Truth && isCap(f.Y) {
+						if _, ff, isL := fieldLoad(under(f.X)); isL && nm(ff) == "interval" {
+							continue
+						}
+					}
 					for _, side := range []ssa.Value{f.X, f.Y} {
 						if side == nil {
 							continue
